@@ -646,11 +646,22 @@ func vC45_batchStep() {
 	vCover("end")
 }
 
-// Batch from the moment it is wired: K arbitrary messages that respect the protocol (elements only against the credit the
-// stage requested, completion after the last element, then only requests) against the list semantics of Batch(m).
+// Batch from the moment it is wired: a script of message kinds (case split: R request, E element, C completion) with
+// arbitrary InitialDemand/RefillThreshold/maxSize, request sizes and element values, respecting the protocol (elements only
+// against the credit the stage requested, completion after the last element) against the list semantics of Batch(m).
+var vC45_scripts = [...]string{
+	"REEC",  // the second element may find no demand: nothing may be lost at completion
+	"REER",  // ... and a later request must release a full window
+	"REERE", // ... and the next element must not produce an oversized batch
+	"REECR", // completion held back for lack of demand, finished by the next request
+	"RERE",
+	"RRECR",
+}
+
 func vC45_batchHistory() {
 	const maxK = 5
-	K := vCase("steps")
+	script := vC45_scripts[vCase("script")]
+	K := len(script)
 	id := vNondetInt64("initialDemand")
 	rt := vNondetInt64("refillThreshold")
 	m := vNondetInt("maxSize")
@@ -671,7 +682,13 @@ func vC45_batchHistory() {
 		if stageDone {
 			break
 		}
-		op := vChoose("msg", 3)
+		op := 2
+		switch script[k] {
+		case 'R':
+			op = 0
+		case 'E':
+			op = 1
+		}
 		n, x := vNondetInt64("n"), vNondetInt("x")
 		actor.VReset()
 		switch op {
